@@ -31,6 +31,26 @@ CHECKS = {
         note=MESH_NOTE, design="3/C03", technique="TLA+ reference semantics + TLC trace validation"),
 }
 
+CHECKS["C11"] = dict(
+    text=("NodeGraph.tla: contract-level state machine of the lazy cached graph (change events, cones, Dirty, symbolic from-scratch terms); "
+          "NodeGraphImpl.tla: implementation-shaped model of depVersions/Outdated with arbitrary vs sorted dependency order (TLC: sorted "
+          "refines the contract, map order violates Minimal but never NoStale). TLC enumerates histories (set/rewire/array add+del/read) "
+          "over start shapes exhaustively to a bound, plus seeded histories on 8-node DAGs; each is executed several times on real "
+          "nodes.Struct graphs (harness processors build the symbolic term and count executions) and TraceNodeGraph judges every line: "
+          "Fresh, Minimal, Once, Version."),
+    note=("Trusted base: TLC; harness processors read all their inputs and count executions; parameter leaves are parameter.Value and "
+          "nodes.Value; map-order nondeterminism is sampled by repetition, not enumerated."),
+    design="3/C11", technique="TLA+ spec + TLC-generated histories replayed + TLC trace validation")
+CHECKS["C13"] = dict(
+    text=("ParamServer.tla: clients, producerLock and artifact evaluation split into leaf reads; with the lock TLC proves Atomic and "
+          "MutualExclusion on the model, without it the same model generates torn-snapshot attack schedules. Schedules are imposed on "
+          "real goroutines calling UpdateParameter/ParameterData/Artifact on a real graph.Instance (node processors block at harness "
+          "gates). Every recorded invoke/response history (directed and free-running stress) is checked for linearizability against the "
+          "sequential object by TLC (TraceParamServer: silent Lin steps, per-history acceptance registers)."),
+    note=("Trusted base: TLC; atomic-counter stamping of invoke/response; the Go race detector (auxiliary observer for the data-race "
+          "clause) on the schedules actually executed; scheduler timeouts only influence which schedules are realised."),
+    design="3/C13", technique="TLA+ linearizability trace validation + model-generated schedules on real goroutines")
+
 NOT_APPLICABLE = []
 
 
